@@ -1,6 +1,7 @@
 package sim
 
 import (
+	"math/big"
 	sdkmath "cosmossdk.io/math"
 	"fmt"
 	"sort"
@@ -442,36 +443,59 @@ func cmpStr(a, b int) string {
 
 // checkPowerCap evaluates the closed-form predicates of C04 for a power-capped set.
 // in[i] is the uncapped power, out[i] the capped power of the same validator; p is the percentage.
+// Arbitrary-precision arithmetic: the oracle must not overflow where the code under test does not.
 func checkPowerCap(in, out []int64, p int64) string {
-	n := int64(len(in))
-	var s, so int64
+	n := big.NewInt(int64(len(in)))
+	s, so := new(big.Int), new(big.Int)
 	for i := range in {
-		s += in[i]
-		so += out[i]
+		s.Add(s, big.NewInt(in[i]))
+		so.Add(so, big.NewInt(out[i]))
 	}
-	maxP := s * p / 100
-	if maxP < 1 {
-		maxP = 1
+	maxP := new(big.Int).Mul(s, big.NewInt(p))
+	maxP.Quo(maxP, big.NewInt(100))
+	if maxP.Sign() <= 0 {
+		maxP = big.NewInt(1)
 	}
-	achievable := n*maxP >= s
+	achievable := new(big.Int).Mul(n, maxP).Cmp(s) >= 0
 	if achievable {
-		if so != s {
+		if so.Cmp(s) != 0 {
 			return "total-changed"
 		}
 		for i := range out {
-			if out[i] > maxP {
+			if big.NewInt(out[i]).Cmp(maxP) > 0 {
 				return "exceeds-cap"
 			}
 			if out[i] < 1 {
 				return "reduced-to-zero"
 			}
 		}
-		for i := range in {
-			for j := range in {
-				if in[i] > in[j] && out[i] < out[j] {
-					return "order-inverted"
+		// relative order: sort indices by input power and compare neighbours (O(n log n))
+		idx := make([]int, len(in))
+		for i := range idx {
+			idx[i] = i
+		}
+		sort.Slice(idx, func(a, b int) bool { return in[idx[a]] > in[idx[b]] })
+		minOutAbove := int64(-1) // min output among strictly larger inputs seen so far
+		i := 0
+		for i < len(idx) {
+			j := i
+			groupMin, groupMax := out[idx[i]], out[idx[i]]
+			for j < len(idx) && in[idx[j]] == in[idx[i]] {
+				if out[idx[j]] < groupMin {
+					groupMin = out[idx[j]]
 				}
+				if out[idx[j]] > groupMax {
+					groupMax = out[idx[j]]
+				}
+				j++
 			}
+			if minOutAbove >= 0 && groupMax > minOutAbove {
+				return "order-inverted"
+			}
+			if minOutAbove < 0 || groupMin < minOutAbove {
+				minOutAbove = groupMin
+			}
+			i = j
 		}
 		return ""
 	}
